@@ -1,10 +1,17 @@
 """E1b inline-cache — C48, second clause: cython.inline's module cache (the
 in-process dict, sys.modules and the on-disk .so keyed by _inline_key).
-Histories of inline calls varying one input at a time (code, argument types,
-language level, directives, dependency contents) over simulated processes
-that share one lib_dir; every returned value is compared with a forced fresh
-build in an empty lib_dir in a fresh process.
+
+A run is a history of cython.inline calls issued by a sequence of simulated
+processes (real forks, one after the other) that share one lib_dir.  Between
+calls exactly one input changes (code, argument types, language level, compiler
+directives, contents of a cimported .pxd); processes restart (the in-process
+caches are lost, the lib_dir survives) and may be killed at a seam point inside
+the build (before cythonize, after the C file exists, after the .so exists but
+before it is loaded, or with the .so torn to a prefix).  Oracle: every call that
+returns gives exactly the value a forced fresh build in an empty lib_dir in a
+fresh process gives for the same inputs.
 """
+import hashlib
 import json
 import os
 import shutil
@@ -16,85 +23,193 @@ from . import core
 PROP = "C48"
 
 SNIPPETS = [
-    # (code, args) — results depend on language level / directives / dependency contents
-    ("return a // b", {"a": -7, "b": 2}),
-    ("return a // b", {"a": -7.0, "b": 2.0}),
-    ("return a % b", {"a": -7, "b": 3}),
-    ("return 1 / 2", {}),
-    ("return a ** b", {"a": 2, "b": -1}),
-    ("x = a + 1\nreturn x * 2", {"a": 20}),
-    ("cimport dep\nreturn dep.K + a", {"a": 1}),
-    ("from dep cimport K\nreturn K * a", {"a": 3}),
+    # (code, {variant: args}) — results depend on language level / directives / argument types / dependency contents
+    ("return a // b", {"int": {"a": -7, "b": 2}, "float": {"a": -7.0, "b": 2.0}, "mixed": {"a": -7, "b": 2.0}}),
+    ("return a % b", {"int": {"a": -7, "b": 3}, "float": {"a": -7.5, "b": 3.0}}),
+    ("return 1 / 2", {"none": {}}),
+    ("return a ** b", {"int": {"a": 2, "b": -1}, "float": {"a": 2.0, "b": -1.0}}),
+    ("return type('x').__name__, type(b'x').__name__", {"none": {}}),
+    ("x = a * a\nreturn x", {"int": {"a": 1 << 40}, "float": {"a": 2.0 ** 40}}),
+    ("cimport dep\nreturn dep.K + a", {"int": {"a": 1}, "float": {"a": 1.5}}),
+    ("from dep cimport K\nreturn K * a", {"int": {"a": 3}}),
+    ("return a", {"int": {"a": 3}, "float": {"a": 3.0}, "str": {"a": "s"}, "list": {"a": [1]}}),
 ]
-DIRECTIVES = [None, {"cdivision": True}, {"cpow": True}, {"cdivision": True, "cpow": True}, {"language_level": 2}, {"language_level": 3}]
+DIRECTIVES = [None, {"cdivision": True}, {"cpow": True}, {"cdivision": True, "cpow": True}, {"overflowcheck": True},
+              {"language_level": 2}, {"language_level": 3}, {"cdivision": False}]
 LEVELS = [None, 2, 3, "3str"]
+KILL_POINTS = ["before_cythonize", "after_cythonize", "after_build", "torn_so"]
 
 
-def gen_history(rng, maxlen):
+def gen_history(rng, cfg):
     ops = []
-    n = rng.randint(2, maxlen)
-    k = [0]
+    n = rng.randint(2, cfg["maxlen"])
+    k = 0
     pool = rng.sample(range(len(SNIPPETS)), rng.randint(1, 3))
+    faults = rng.random() < cfg.get("fault_rate", 0.4)
+    # swarm: this run varies only some dimensions, so that single-dimension changes under a shared rest are common
+    vary_dir = rng.random() < 0.8
+    vary_lvl = rng.random() < 0.6
+    vary_arg = rng.random() < 0.6
+    base_d = rng.choice(DIRECTIVES)
+    base_l = rng.choice(LEVELS)
     for _ in range(n):
         r = rng.random()
-        if r < 0.70:
+        if r < 0.68:
             si = rng.choice(pool)
-            d = rng.choice(DIRECTIVES)
-            lvl = rng.choice(LEVELS) if not (d and "language_level" in d) else None
-            ops.append(["call", si, d, lvl])
-        elif r < 0.85:
+            d = rng.choice(DIRECTIVES) if vary_dir else base_d
+            lvl = rng.choice(LEVELS) if vary_lvl else base_l
+            if d and "language_level" in d and rng.random() < 0.7:
+                lvl = None
+            variants = sorted(SNIPPETS[si][1])
+            var = rng.choice(variants) if vary_arg else variants[0]
+            if faults and rng.random() < 0.25:
+                ops.append(["kill", rng.choice(KILL_POINTS)])
+            ops.append(["call", si, d, lvl, var])
+        elif r < 0.86:
             ops.append(["restart"])
         else:
-            k[0] += 1
-            ops.append(["edit_dep", 10 + k[0]])
-    ops.append(["call", rng.choice(pool), None, None])
+            k += 1
+            ops.append(["edit_dep", 10 + k])
+    si = rng.choice(pool)
+    ops.append(["call", si, base_d, base_l, sorted(SNIPPETS[si][1])[0]])
     return ops
 
 
-def _segment(calls, lib_dir, inc_dir, force):
-    """Runs in a forked child: a simulated process executing inline calls."""
-    from Cython.Build.Inline import cython_inline
-    out = []
-    for si, d, lvl in calls:
-        code, args = SNIPPETS[si]
-        kw = dict(args)
-        try:
-            v = cython_inline(code, lib_dir=lib_dir, cython_include_dirs=[inc_dir], cython_compiler_directives=d,
-                              language_level=lvl, force=force, quiet=True, locals={}, globals={}, **kw)
-            out.append(["value", v if isinstance(v, (int, float, str, type(None))) else repr(v)])
-        except BaseException as e:
-            if isinstance(e, (SystemExit, KeyboardInterrupt)):
-                raise
-            out.append(["raise", type(e).__name__])
-    return out
+# --------------------------------------------------------------------------
+# a simulated process
+
+def _install_kill_seam(point):
+    """Runs in the child before the call that is to die: module-global shadowing of the names Inline.py uses."""
+    from Cython.Build import Inline
+    real_cythonize = Inline.cythonize
+    real_gbe = Inline._get_build_extension
+
+    def cythonize(*a, **kw):
+        if point == "before_cythonize":
+            os._exit(137)
+        r = real_cythonize(*a, **kw)
+        if point == "after_cythonize":
+            os._exit(137)
+        return r
+
+    def get_build_extension():
+        be = real_gbe()
+        real_run = be.run
+
+        def run():
+            real_run()
+            if point in ("after_build", "torn_so"):
+                if point == "torn_so":
+                    for f in os.listdir(be.build_lib):
+                        if f.endswith(".so"):
+                            p = os.path.join(be.build_lib, f)
+                            n = os.path.getsize(p)
+                            with open(p, "r+b") as fh:
+                                fh.truncate(n // 2)
+                os._exit(137)
+        be.run = run
+        return be
+    Inline.cythonize = cythonize
+    Inline._get_build_extension = get_build_extension
 
 
-def _run_segment(calls, lib_dir, inc_dir, force=False):
+def _segment(calls, lib_dir, inc_dir, force, wfd):
+    """Child: executes inline calls; writes one JSON line per finished call so that a kill loses only the call in flight."""
     os.environ["CFLAGS"] = "-O0 -w"
     devnull = os.open(os.devnull, os.O_WRONLY)
     os.dup2(devnull, 1)
     os.dup2(devnull, 2)
-    return _segment(calls, lib_dir, inc_dir, force)
+    core.use_stage()
+    from Cython.Build.Inline import cython_inline
+    out = os.fdopen(wfd, "w")
+    for si, d, lvl, var, kill in calls:
+        code, variants = SNIPPETS[si]
+        kw = dict(variants[var])
+        if kill:
+            _install_kill_seam(kill)
+        try:
+            v = cython_inline(code, lib_dir=lib_dir, cython_include_dirs=[inc_dir], cython_compiler_directives=d,
+                              language_level=lvl, force=force, quiet=True, locals={}, globals={}, **kw)
+            res = ["value", repr(v)]
+        except BaseException as e:
+            if isinstance(e, (SystemExit, KeyboardInterrupt)):
+                raise
+            res = ["raise", type(e).__name__]
+        out.write(json.dumps(res) + "\n")
+        out.flush()
+    out.close()
+
+
+def run_process(calls, lib_dir, inc_dir, force=False, timeout=300):
+    """Returns the list of per-call results; a call lost to a kill is ['killed']; later calls of that process never ran."""
+    r, w = os.pipe()
+    pid = os.fork()
+    if pid == 0:
+        os.close(r)
+        try:
+            _segment(calls, lib_dir, inc_dir, force, w)
+            os._exit(0)
+        except BaseException:
+            os._exit(3)
+    os.close(w)
+    import select
+    import signal
+    data, t0 = b"", time.time()
+    while True:
+        rl, _, _ = select.select([r], [], [], 1.0)
+        if rl:
+            chunk = os.read(r, 1 << 16)
+            if not chunk:
+                break
+            data += chunk
+        elif time.time() - t0 > timeout:
+            os.kill(pid, signal.SIGKILL)
+            break
+    os.close(r)
+    _, status = os.waitpid(pid, 0)
+    res = [json.loads(l) for l in data.decode().splitlines() if l.strip()]
+    code = os.WEXITSTATUS(status) if os.WIFEXITED(status) else -os.WTERMSIG(status)
+    return res, code
+
+
+def _ref_dir():
+    d = os.path.join(core.workdir(), "e1i-ref-" + core.stage()[1][:12])
+    os.makedirs(d, exist_ok=True)
+    return d
 
 
 _ref_memo = {}
 
 
 def reference(rundir, call, depv):
-    key = json.dumps([call, depv])
+    """Forced fresh build, empty lib_dir, fresh process; memoised in memory and on disk (per staged tree)."""
+    uses = "dep" in SNIPPETS[call[0]][0]
+    key = json.dumps([SNIPPETS[call[0]][0], call[1:], depv if uses else None], sort_keys=True)
     if key in _ref_memo:
         return _ref_memo[key]
+    path = os.path.join(_ref_dir(), hashlib.sha256(key.encode()).hexdigest()[:24] + ".json")
+    if os.path.exists(path):
+        try:
+            with open(path) as f:
+                _ref_memo[key] = json.load(f)
+            return _ref_memo[key]
+        except ValueError:
+            pass
     d = os.path.join(rundir, "ref%d" % len(_ref_memo))
     lib, inc = os.path.join(d, "lib"), os.path.join(d, "inc")
     os.makedirs(lib)
     os.makedirs(inc)
     with open(os.path.join(inc, "dep.pxd"), "w") as f:
         f.write("cdef enum:\n    K = %d\n" % depv)
-    st, r = core.run_one_forked(_run_segment, [call], lib, inc, True, timeout=180)
+    r, code = run_process([call + [None]], lib, inc, True)
     shutil.rmtree(d, ignore_errors=True)
-    if st != "ok" or not isinstance(r, list):
-        raise core.HarnessError("inline reference build failed: %s %r" % (st, r))
+    if code != 0 or len(r) != 1:
+        raise core.HarnessError("inline reference build failed: exit %s %r" % (code, r))
     _ref_memo[key] = r[0]
+    tmp = path + ".%d.tmp" % os.getpid()
+    with open(tmp, "w") as f:
+        json.dump(r[0], f)
+    os.replace(tmp, path)
     return r[0]
 
 
@@ -108,121 +223,145 @@ def simulate(ops, rundir):
         with open(os.path.join(inc, "dep.pxd"), "w") as f:
             f.write("cdef enum:\n    K = %d\n" % depv[0])
     write_dep()
-    results, expected = [], []
-    seg, seg_dep = [], []
-    dep_edited_since_build = set()
-    stats = {"segments": 0, "calls": 0, "dep_edits": 0}
-
-    def flush():
-        if not seg:
-            return
-        st, r = core.run_one_forked(_run_segment, list(seg), lib, inc, False, timeout=300)
-        if st != "ok" or not isinstance(r, list):
-            raise core.HarnessError("inline segment failed: %s %r" % (st, r))
-        results.extend(r)
-        stats["segments"] += 1
-        del seg[:]
+    # cut the history into processes: a restart, a dependency edit (made from outside) and a kill end a process
+    procs, cur, pending_kill = [], [], None
+    records = []        # per call: dict(call, depv, proc, kill)
     for op in ops:
         if op[0] == "call":
-            call = [op[1], op[2], op[3]]
-            # a dependency edit must be visible to the NEXT call, so calls after an edit start a new segment only on restart;
-            # within one simulated process the include dir content at call time is what counts
-            seg.append(call)
-            expected.append((call, depv[0]))
-            stats["calls"] += 1
-            flush()         # one call per fork keeps dep edits ordered; the process identity is simulated by lib_dir + restart ops below
-        elif op[0] == "restart":
-            flush()
-        elif op[0] == "edit_dep":
-            flush()
-            depv[0] = op[1]
-            write_dep()
-            stats["dep_edits"] += 1
-    flush()
-    refs = [reference(rundir, c, dv) for c, dv in expected]
-    return results, refs, expected, stats
-
-
-def simulate_inproc(ops, rundir):
-    """Same history, but consecutive calls between restarts run in ONE simulated process (in-process caches live on)."""
-    lib, inc = os.path.join(rundir, "lib"), os.path.join(rundir, "inc")
-    os.makedirs(lib)
-    os.makedirs(inc)
-    depv = [10]
-    with open(os.path.join(inc, "dep.pxd"), "w") as f:
-        f.write("cdef enum:\n    K = 10\n")
-    segments, cur = [], []
-    expected = []
-    for op in ops:
-        if op[0] == "call":
-            cur.append([op[1], op[2], op[3]])
-            expected.append(([op[1], op[2], op[3]], depv[0]))
+            c = list(op[1:5])
+            rec = {"call": c, "depv": depv[0], "kill": pending_kill, "idx": len(records)}
+            records.append(rec)
+            cur.append(rec)
+            if pending_kill:
+                procs.append(("calls", cur))
+                cur, pending_kill = [], None
+        elif op[0] == "kill":
+            pending_kill = op[1]
         elif op[0] == "restart":
             if cur:
-                segments.append(("calls", cur))
+                procs.append(("calls", cur))
                 cur = []
         elif op[0] == "edit_dep":
-            # a dependency edit between two calls of one process: model it as process boundary too (edits happen outside)
             if cur:
-                segments.append(("calls", cur))
+                procs.append(("calls", cur))
                 cur = []
-            segments.append(("edit", op[1]))
+            procs.append(("edit", op[1]))
             depv[0] = op[1]
     if cur:
-        segments.append(("calls", cur))
-    results = []
-    for kind, payload in segments:
+        procs.append(("calls", cur))
+    stats = {"processes": 0, "calls": len(records), "dep_edits": 0, "kills_fired": {}, "log": []}
+    for kind, payload in procs:
         if kind == "edit":
-            with open(os.path.join(inc, "dep.pxd"), "w") as f:
-                f.write("cdef enum:\n    K = %d\n" % payload)
+            depv[0] = payload
+            write_dep()
+            stats["dep_edits"] += 1
+            stats["log"].append(["edit_dep", payload])
             continue
-        st, r = core.run_one_forked(_run_segment, payload, lib, inc, False, timeout=300)
-        if st != "ok" or not isinstance(r, list):
-            raise core.HarnessError("inline segment failed: %s %r" % (st, r))
-        results.extend(r)
-    refs = [reference(rundir, c, dv) for c, dv in expected]
-    return results, refs, expected, {"segments": len(segments), "calls": len(expected), "dep_edits": sum(1 for k, _ in segments if k == "edit")}
+        stats["processes"] += 1
+        res, code = run_process([r["call"] + [r["kill"]] for r in payload], lib, inc)
+        for j, rec in enumerate(payload):
+            if j < len(res):
+                rec["got"] = res[j]
+            elif rec["kill"] and j == len(res):
+                rec["got"] = ["killed", rec["kill"]]
+                stats["kills_fired"][rec["kill"]] = stats["kills_fired"].get(rec["kill"], 0) + 1
+            else:
+                raise core.HarnessError("inline process lost a call without a scheduled kill: exit %s, %d of %d results" % (code, len(res), len(payload)))
+            stats["log"].append(["call", rec["call"], rec["got"]])
+        if len(res) == len(payload) and any(r["kill"] for r in payload):
+            # the kill point was not reached: the call was served from a cache level before the build
+            stats["kills_fired"]["not_reached"] = stats["kills_fired"].get("not_reached", 0) + 1
+    for rec in records:
+        rec["ref"] = reference(rundir, rec["call"], rec["depv"])
+    return records, stats
 
 
-def uses_dep(call):
-    return "dep" in SNIPPETS[call[0]][0]
+def key_of(call):
+    """What _inline_key is meant to distinguish (for the torn-.so known finding: same key = same code, arg variant, level, directives)."""
+    return json.dumps(call, sort_keys=True)
 
 
 def one_run(check, seed, i, cfg, ops=None):
     rng = core.rng_for(check + ":inline", seed, i)
     core.use_stage()
     if ops is None:
-        ops = gen_history(rng, cfg["maxlen"])
+        ops = gen_history(rng, cfg)
     rundir = os.path.join(core.workdir(), "e1i", "r%d-%d-%d" % (os.getpid(), seed, i))
     shutil.rmtree(rundir, ignore_errors=True)
     os.makedirs(rundir)
     res = {"probes": {}, "faults": {}, "steps": len(ops)}
     try:
-        results, refs, expected, stats = simulate_inproc(ops, rundir)
+        records, stats = simulate(ops, rundir)
     finally:
         shutil.rmtree(rundir, ignore_errors=True)
-    res["probes"]["inline_calls"] = stats["calls"]
-    res["probes"]["inline_process_segments"] = stats["segments"]
-    res["faults"]["dependency_edit"] = stats["dep_edits"]
-    res["faults"]["process_restart"] = sum(1 for o in ops if o[0] == "restart")
-    res["digest"] = core.digest(ops)
-    res["nontrivial"] = len({json.dumps(c[:1] + c[1:]) for c, _ in expected}) >= 2
-    for k, (got, want, (call, dv)) in enumerate(zip(results, refs, expected)):
-        if got != want:
-            if uses_dep(call) and stats["dep_edits"] and not cfg.get("raw"):
-                # known finding F3b: the key does not cover dependency contents
-                res["probes"]["known_F3b_dependency_content_not_in_inline_key"] = res["probes"].get("known_F3b_dependency_content_not_in_inline_key", 0) + 1
-                continue
-            res["violation"] = {"klass": "inline-result-differs-from-fresh-build", "detail": {"call_index": k, "call": call, "dep_version": dv, "got": got, "fresh": want},
-                                "ops": ops, "engine_part": "inline"}
-            break
+    P = res["probes"]
+    P["inline_calls"] = stats["calls"]
+    P["inline_processes"] = stats["processes"]
+    res["faults"]["inline_dependency_edit"] = stats["dep_edits"]
+    res["faults"]["inline_process_restart"] = sum(1 for o in ops if o[0] == "restart")
+    for k, v in stats["kills_fired"].items():
+        res["faults"]["inline_kill_" + k] = v
+    res["digest"] = core.digest(stats["log"])
+    distinct_keys = {key_of(r["call"]) for r in records}
+    res["nontrivial"] = len(distinct_keys) >= 2 or stats["dep_edits"] > 0 or bool(stats["kills_fired"])
+    torn_keys = set()
+    seen_key_dep = {}
+    for rec in records:
+        got, want, call = rec["got"], rec["ref"], rec["call"]
+        k = key_of(call)
+        if got[0] == "killed":
+            if got[1] == "torn_so":
+                torn_keys.add(k)
+            continue
+        code_k = json.dumps([call[0], call[3]])
+        if code_k in seen_key_dep and seen_key_dep[code_k] != (call[1], call[2]):
+            P["same_code_other_directives_or_level"] = P.get("same_code_other_directives_or_level", 0) + 1
+        seen_key_dep.setdefault(code_k, (call[1], call[2]))
+        if got == want:
+            continue
+        uses = "dep" in SNIPPETS[call[0]][0]
+        if uses and stats["dep_edits"] and not cfg.get("raw") and got[0] == "value":
+            # known finding F3b: the key does not cover the contents of cimported files
+            P["known_F3b_dependency_content_not_in_inline_key"] = P.get("known_F3b_dependency_content_not_in_inline_key", 0) + 1
+            continue
+        if k in torn_keys and got == ["raise", "ImportError"] and not cfg.get("raw"):
+            # known finding F22: a .so torn by a crash during the link is trusted for ever
+            P["known_F22_torn_so_trusted"] = P.get("known_F22_torn_so_trusted", 0) + 1
+            continue
+        res["violation"] = {"klass": "inline-result-differs-from-fresh-build",
+                            "detail": {"call_index": rec["idx"], "call": [SNIPPETS[call[0]][0]] + call[1:], "dep_version": rec["depv"], "got": got, "fresh": want},
+                            "ops": ops, "engine_part": "inline"}
+        break
     if i % 20 == 0:
-        res["sample"] = {"inline_ops": ops}
+        res["sample"] = {"inline_ops": ops, "log": stats["log"][-8:]}
     return res
 
 
+def _fails(ops, raw):
+    try:
+        r = one_run(PROP, 0, 0, {"maxlen": 8, "raw": raw}, ops=ops)
+    except Exception:
+        return False
+    return "violation" in r
+
+
+def minimise(v, raw=False):
+    ops = v["ops"]
+    deadline = time.time() + 90
+
+    def t(cand):
+        if time.time() > deadline or not any(o[0] == "call" for o in cand):
+            return False
+        return _fails(cand, raw)
+    ops2 = core.ddmin(list(ops), t, max_tests=40)
+    r = one_run(PROP, 0, 0, {"maxlen": 8, "raw": raw}, ops=ops2)
+    if "violation" in r:
+        return dict(r["violation"], minimised=True)
+    return v
+
+
 def replay(payload):
-    r = one_run(PROP, 0, 0, {"maxlen": 6, "raw": payload.get("raw", False)}, ops=payload["ops"])
+    r = one_run(PROP, 0, 0, {"maxlen": 8, "raw": payload.get("raw", False)}, ops=payload["ops"])
     v = r.get("violation")
     print("replayed: %s" % (json.dumps(v["detail"]) if v else "no violation"))
     return bool(v)
